@@ -417,6 +417,47 @@ pub fn c07_change_min_ada<S: Src>(_s: &mut S) {
     assert!(failures.is_empty(), "{} of {} change-output scenarios violate the minimum-ADA / value-size bound; first: {}", failures.len(), n, failures[0]);
 }
 
+// ---------------------------------------------------------------- C03 builder clause: no zero-quantity asset / empty policy bundle in a change output
+pub fn c03_change_zero_quantities<S: Src>(_s: &mut S) {
+    let mut failures: Vec<String> = Vec::new();
+    let pol = |b: u8| ScriptHash::from([b; 28]);
+    let an = |b: u8| AssetName::new(vec![b]).unwrap();
+    // input bundles that carry entries with quantity 0 next to positive ones (the API allows them; the leftover is input - output)
+    let inputs: Vec<Vec<(u8, u8, u64)>> = vec![
+        vec![(7, 1, 0), (7, 2, 5)],
+        vec![(7, 1, 0), (8, 3, 5)],
+        vec![(7, 1, 5), (8, 3, 0), (8, 4, 0)],
+        vec![(7, 1, 0), (7, 2, 0), (7, 3, 9), (9, 1, 1)],
+    ];
+    for (k, bundle) in inputs.iter().enumerate() {
+        for pure in [false, true] {
+            let cfg = TransactionBuilderConfigBuilder::new().fee_algo(&LinearFee::new(&bn(44), &bn(155381))).pool_deposit(&bn(500_000_000)).key_deposit(&bn(2_000_000))
+                .max_value_size(5000).max_tx_size(16384).coins_per_utxo_byte(&bn(4310)).prefer_pure_change(pure).build().unwrap();
+            let mut tb = TransactionBuilder::new(&cfg);
+            let mut ma = MultiAsset::new();
+            for (p, n, q) in bundle { ma.set_asset(&pol(*p), &an(*n), &bn(*q)); }
+            if tb.add_regular_input(&addr(1, 1), &TransactionInput::new(&TransactionHash::from([3u8; 32]), 0), &Value::new_with_assets(&bn(20_000_000), &ma)).is_err() { continue; }
+            if tb.add_output(&TransactionOutput::new(&addr(1, 2), &Value::new(&bn(2_000_000)))).is_err() { continue; }
+            if tb.add_change_if_needed(&addr(1, 3)).is_err() { continue; }
+            let body = match tb.build() { Ok(b) => b, Err(_) => continue };
+            for i in 1..body.outputs().len() {            // outputs the builder created (the first one is the caller's)
+                if let Some(m) = body.outputs().get(i).amount().multiasset() {
+                    let pols = m.keys();
+                    for pi in 0..pols.len() {
+                        let assets = m.get(&pols.get(pi)).unwrap();
+                        if assets.len() == 0 { failures.push(format!("input bundle {} (prefer_pure_change {}): change output #{} holds a policy without assets", k, pure, i)); }
+                        let names = assets.keys();
+                        for ni in 0..names.len() {
+                            if u64::from(assets.get(&names.get(ni)).unwrap()) == 0 { failures.push(format!("input bundle {} (prefer_pure_change {}): change output #{} holds an asset with quantity 0", k, pure, i)); }
+                        }
+                    }
+                }
+            }
+        }
+    }
+    assert!(failures.is_empty(), "{} change outputs hold a zero-quantity asset or an empty policy bundle; first: {}", failures.len(), failures[0]);
+}
+
 // ---------------------------------------------------------------- C09 first clause: auxiliary-data hash
 fn blake2b256_ref(data: &[u8]) -> [u8; 32] {
     use cryptoxide::hashing::blake2b::Blake2b;
